@@ -183,7 +183,12 @@ def build_av(case):
     if case['av'] is None:
         return None
     b = build.Builder([])
-    return {a: b.build(s) for a, s in case['av']}
+    av = {a: b.build(s) for a, s in case['av']}
+    # the availability dictionary may list the alternatives in another order than the utilities
+    order = case.get('av_order')
+    if order:
+        av = {a: av[a] for a in order}
+    return av
 
 
 def model_expression(case, model, choice, log=False, shift=None, tuple_syntax=False, mu_override=None):
